@@ -180,7 +180,8 @@ fn check_stmt(before: &Context, text: &str, probes: &[String], exact: bool) -> C
                 let close = ulp_close(r2.value.as_deref().unwrap_or(""), ro.value.as_deref().unwrap_or("")) || ulp_close(r2.value_base.as_deref().unwrap_or(""), ro.value_base.as_deref().unwrap_or(""));
                 Some(Failure { kind: if close { "value-ulp" } else { "value" }, what: format!("echo `{}` evaluates to {:?}, the input to {:?}", echo, r2.value, ro.value) })
             } else if exact && r2.prints != ro.prints {
-                Some(Failure { kind: "value", what: format!("echo `{}` prints {:?}, the input printed {:?}", echo, r2.prints, ro.prints) })
+                // `print`: only the formatted output of print/type differs (the values are not observable here)
+                Some(Failure { kind: "print", what: format!("echo `{}` prints {:?}, the input printed {:?}", echo, r2.prints, ro.prints) })
             } else if r2.decos != ro.decos && ro.kinds.iter().any(|k| k.ends_with("unit")) {
                 Some(Failure { kind: "value", what: format!("echo `{}` carries decorators {:?}, the input {:?}", echo, r2.decos, ro.decos) })
             } else if r2.echo != ro.echo && !exact {
@@ -300,6 +301,19 @@ fn known_shapes(n: &Sx, role: &str, parent: &str, out: &mut Vec<String>) {
         if r.head() == "if" {
             out.push("conv-rhs-conditional".into());
         }
+        // `a ➞ ((if …) ➞ c)`: the chain is re-read left-nested, which makes the conditional a right operand
+        let mut first = r;
+        let mut chain = false;
+        while first.label() == "bin.conv" {
+            first = &first.items()[2];
+            chain = true;
+        }
+        if chain {
+            out.push("conv-chain-regrouped".into());
+        }
+        if chain && first.head() == "if" {
+            out.push("conv-chain-conditional".into());
+        }
     }
     let my = match n.head() {
         "ccall" => "ccall",
@@ -345,6 +359,19 @@ fn classify(src: &str, ro: &RunOut, f: &Failure) -> String {
     if ro.kinds == ["base-unit"] && !src_t.contains(':') {
         shapes.push("base-unit-implicit-dimension".into());
     }
+    if ro.kinds == ["fn"] {
+        // `fn f<D: Dim>(x: D) = NaN x`: a polymorphic literal adds a quantified variable; the echo then renames the
+        // type parameters (A, B) but prints the parameter annotations with the user's names
+        let tp = |t: &str| -> Option<String> {
+            let head = t.split('(').next().unwrap_or("");
+            head.find('<').map(|i| head[i..].to_string())
+        };
+        if let (Some(a), Some(b)) = (tp(&src_t), tp(&ro.echo[0])) {
+            if a.replace(' ', "") != b.replace(' ', "") {
+                shapes.push("fn-type-parameters-renamed".into());
+            }
+        }
+    }
     if ro.kinds == ["fn"] && ro.types.iter().any(|t| t.contains("; where") && t.split("; where").skip(1).any(|w| w.contains("forall "))) {
         shapes.push("generic-fn-where-type".into());
     }
@@ -366,19 +393,22 @@ fn classify(src: &str, ro: &RunOut, f: &Failure) -> String {
     // a shape explains a failure only if it can cause that kind of failure
     let can_cause = |shape: &str, kind: &str| -> bool {
         match shape {
-            "sugar-to-as-operand" => matches!(kind, "rejected" | "text" | "type" | "value"),
+            "sugar-to-as-operand" => matches!(kind, "rejected" | "text" | "type" | "value" | "value-ulp"),
             "callable-compound-callee" | "field-of-compound" => matches!(kind, "rejected" | "type" | "value"),
             "generic-fn-where-type" => matches!(kind, "rejected" | "type"),
-            "pow-negative-literal-exponent" | "date-add-chain" | "inferred-type-unicode-exponent" | "literal-not-exact" => kind == "text",
+            "pow-negative-literal-exponent" | "date-add-chain" | "inferred-type-unicode-exponent" | "literal-not-exact" | "conv-chain-conditional" => kind == "text",
             "negated-sugar-from" => matches!(kind, "value" | "text"),
             "annotation-rational-exponent" => matches!(kind, "rejected" | "text"),
-            "mul-chain-regrouped" => matches!(kind, "text" | "value-ulp"),
-            "add-chain-regrouped" => kind == "value-ulp",
+            "mul-chain-regrouped" => matches!(kind, "text" | "value-ulp" | "print"),
+            "add-chain-regrouped" => matches!(kind, "value-ulp" | "print"),
+            // `a ➞ (b ➞ c)` with a non-unit target: `len1 -> (len1 -> len1)` shows `1 × 1 × 4 m`, the re-read echo `1 × 4 m`
+            "conv-chain-regrouped" => matches!(kind, "value-ulp" | "value" | "print"),
             "pow-inexact-literal-exponent" => kind == "type",
             _ => kind == "rejected",
         }
     };
-    let shapes: Vec<String> = shapes.into_iter().filter(|s| can_cause(s, f.kind)).collect();
+    // a difference in print output is a value difference seen through `print`
+    let shapes: Vec<String> = shapes.into_iter().filter(|s| can_cause(s, f.kind) || (f.kind == "print" && can_cause(s, "value"))).collect();
     if shapes.is_empty() {
         format!("{}|unclassified", f.kind)
     } else {
@@ -386,7 +416,8 @@ fn classify(src: &str, ro: &RunOut, f: &Failure) -> String {
     }
 }
 
-/// canonical value texts that differ only in the last few bits of their numbers
+/// canonical value texts that differ only by rounding-sized amounts in their numbers (what regrouping a
+/// flattened `+`/`×`/`➞` chain can cause in floating point)
 fn ulp_close(a: &str, b: &str) -> bool {
     let pa: Vec<&str> = a.split("q:").collect();
     let pb: Vec<&str> = b.split("q:").collect();
@@ -400,7 +431,11 @@ fn ulp_close(a: &str, b: &str) -> bool {
         let (hx, hy) = (u64::from_str_radix(&x[..16], 16), u64::from_str_radix(&y[..16], 16));
         match (hx, hy) {
             (Ok(hx), Ok(hy)) => {
-                if hx.abs_diff(hy) > 4 {
+                // rounding-sized difference: a few ulp, or (cancellation inside a regrouped sum) a relative
+                // difference below 1e-9 / an absolute one below 1e-12
+                let (a, b) = (f64::from_bits(hx), f64::from_bits(hy));
+                let d = (a - b).abs();
+                if !(hx.abs_diff(hy) <= 4 || d <= 1e-9 * a.abs().max(b.abs()) || d <= 1e-12) {
                     return false;
                 }
             }
